@@ -62,6 +62,65 @@ def check_definition(case, ctx):
 
 
 @st.composite
+def s_intforms(draw):
+    """integer-valued bars held the way users hold them: narrow integer arrays, int64 arrays, nested lists of ints"""
+    n = draw(st.integers(1, 7))
+    mult = draw(st.sampled_from([1, 5, 6, 10, 40, 1000]))
+    shift = draw(st.sampled_from([0, 0, -8, -3, 4]))
+    bars = []
+    for _ in range(n):
+        b = draw(st.integers(0, 12)) + shift
+        bars.append([b * mult, (b + draw(st.integers(1, 12))) * mult])
+    return {"ibars": bars, "form": draw(st.sampled_from(["narrow", "narrow", "int64", "list"])), "hom_deg": draw(st.sampled_from([0, 1]))}
+
+
+def _narrow_dtype(vals):
+    lo, hi = min(vals), max(vals)
+    for dt in (np.uint8, np.int8, np.uint16, np.int16, np.int32):
+        info = np.iinfo(dt)
+        if info.min <= lo and hi <= info.max:
+            return dt
+    return np.int64
+
+
+def check_intforms(case, ctx):
+    """the landscape of integer-valued bars does not depend on the container / dtype the bars arrive in: sums b + d and negations
+    must not be evaluated in a narrow integer dtype"""
+    from persim import PersLandscapeExact
+    bars = [[int(b), int(d)] for b, d in case["ibars"]]
+    form = case["form"]
+    flat = [v for p in bars for v in p]
+    if form == "narrow":
+        dt = _narrow_dtype(flat)
+        arr = np.array(bars, dtype=dt)
+        info = np.iinfo(dt)
+        wraps = any(b + d > info.max or -d < info.min or -b < info.min for b, d in bars)
+        ctx.label("dtype:" + np.dtype(dt).name, "b+d_or_negation_outside_dtype" if wraps else None)
+        ctx.nontrivial(wraps and len(bars) >= 2)
+    elif form == "int64":
+        arr = np.array(bars, dtype=np.int64)
+    else:
+        arr = [list(p) for p in bars]
+    ctx.label("form:" + form, "n=%d" % len(bars))
+    dgms = [np.array([[0.0, 1.0]])] * case["hom_deg"] + [arr]
+    ple = ctx.call(PersLandscapeExact, dgms=dgms, hom_deg=case["hom_deg"])
+    fired = LD.shortcut_fired(ple)
+    cps = ple.critical_pairs
+    fbars = [[float(b), float(d)] for b, d in bars]
+    msg = None
+    try:
+        LD.check_wellformed(ctx, cps, len(bars))
+        msg = LD.compare_with_definition(fbars, cps, LD.coord_scale(fbars))
+        sig = "differs_from_definition"
+    except Violation as v:
+        msg, sig = v.msg, v.sig
+    if msg is not None:
+        if fired:
+            raise Violation("shortcut_mismatch", "repeated-bar shortcut fired %d time(s): %s; bars=%s" % (fired, msg, bars))
+        raise Violation(sig, "%s; bars=%s given as %s" % (msg, bars, form if form != "narrow" else "%s array" % np.dtype(dt).name))
+
+
+@st.composite
 def s_xl(draw):
     return {"seed": draw(st.integers(0, 2 ** 32 - 1)), "n": draw(st.sampled_from([40, 64, 65, 66, 70, 90, 120])),
             "shape": draw(st.sampled_from(["random", "random", "staircases", "lattice"])), "hom_deg": draw(st.sampled_from([0, 1]))}
@@ -119,6 +178,12 @@ def check_xl(case, ctx):
 
 
 def VALID_DEFAULT(case):
+    if "ibars" in case:
+        try:
+            return len(case["ibars"]) >= 1 and all(len(p) == 2 and isinstance(p[0], int) and isinstance(p[1], int) and p[1] > p[0] and abs(p[1]) < 10 ** 6
+                                                   for p in case["ibars"]) and case["hom_deg"] in (0, 1) and case["form"] in ("narrow", "int64", "list")
+        except Exception:
+            return False
     if "n" in case:
         return case["n"] >= 1 and case["shape"] in ("random", "staircases", "lattice") and case["hom_deg"] in (0, 1)
     return _valid_small(case)
@@ -142,6 +207,10 @@ CLAUSES = [
            rule="phase B - repeated bars likely (each new bar copies an earlier one with probability 1/4); " + _rule),
     Clause("definition_large", s_case(False, 14), check_definition, quick=2000, thorough=30000,
            rule="up to 14 bars; " + _rule),
+    Clause("integer_arrays", s_intforms(), check_intforms, quick=4000, thorough=50000,
+           rule="1..7 integer-valued bars given as the narrowest integer array that holds them (uint8 / int8 / uint16 / int16 / int32), an int64 array "
+                "or a nested list of ints: same exact decision against the definition; non-trivial = some b + d or a negated coordinate "
+                "lies outside the range of the array's dtype"),
     Clause("definition_xl", s_xl(), check_xl, quick=48, thorough=320,
            rule="40..120 bars expanded from a generated seed (random floats; separated staircases of overlapping bars with gaps and touching "
                 "points; distinct lattice bars), shuffled; same exact decision with a vectorised oracle; non-trivial = >= 66 bars and shortcut not fired"),
